@@ -35,7 +35,7 @@ CHECKS = {
         level_note="Trusted: Lean kernel; equivalence of the float64 threshold comparison with the exact rational one (argued for N < 2^45, sampled by the correspondence run, not proved); "
                    "uint64 wrap-around near 2^64 is outside the model; goroutine/channel plumbing of startInternal is exercised, not modelled.",
         rule="all subsets of a 7..10 block window from S (S itself included) x N<=4..8 x S<=2 x P grid, plus seeded random sequences with jumps to just around thresholds; "
-             "distinct = distinct (S,N,P,sequence); non-trivial = at least one block delivered; separate malformed stream (repeated / decreasing / below-start blocks, invalid configs)",
+             "distinct = distinct (S,N,P,sequence); non-trivial = at least one block delivered; separate malformed stream (repeated / decreasing / below-start blocks, invalid configs); every announcement is also forwarded to the node's default publisher, whose one subscriber reads only at the end of each configuration",
         assumptions=["float64 threshold comparison agrees with the exact integer test for N < 2^45 (sampled)", "block numbers + N < 2^64"],
         trusted_base=["exact-arithmetic twin of the float64 threshold test (Model/Epoch.lean reached)"],
     ),
@@ -70,7 +70,7 @@ CHECKS = {
                    "contract algorithm in Go, incl. fabricated pre-states at every 2^k boundary up to 2^32-2. Oracle = the REAL contract (scenario evmbridge): PolygonZkEVMBridgeV2 bytecode behind a proxy in go-ethereum's simulated EVM takes native-asset bridges and messages (several per block); its logs go through the syncer's own log handlers into the real processor; per deposit the contract's getLeafValue / getRoot(), the node's leaf / GetExitRootByIndex and the Lean deposit-contract model over the Lean Keccak must agree.",
         level_note="Trusted: Lean kernel; H.Inj; model/code correspondence (generator-bounded); the Solidity contract is modelled by hand (DC) and cross-checked against an independent Go port, not against bytecode. "
                    "The leaf-value half (Bridge.Hash = getLeafValue) is decided by the bridge-store correspondence/monitor, not by a theorem.",
-        rule="same worlds as C08; every committed deposit's root compared with the contract algorithm; distinct non-trivial = distinct (root, position) pairs",
+        rule="same worlds as C08; every committed deposit's root compared with the contract algorithm; distinct non-trivial = distinct (root, position) pairs; bridge blocks without other events are fed as ABI-encoded logs through the real log handlers; evmbridge: 2 (quick) / 6 (thorough) worlds of 14 / 60 blocks mined by the real contract, 1-3 native-asset bridges / messages per block, amounts 0 / 1 / random / ~1e23, metadata of 0-100 bytes; a concurrent fill of four trees (`par`) at the start of every tree run",
         assumptions=["H.Inj", "WFhistory (consecutive deposit counts etc.)"],
         trusted_base=["model of package tree", "hand model of DepositContractBase (Model/Contract.lean)"],
     ),
@@ -103,7 +103,7 @@ CHECKS = {
                    "an independent recursive reference decides the property on the implementation's output (all decoded fields, not just the index).",
         level_note="Trusted: Lean kernel; model/code correspondence (generator-bounded); go-ethereum ABI decoding and the trace JSON decoding are exercised, not modelled; field extraction is abstracted to an id in the model and checked field by field by the monitor.",
         rule="seeded random call trees depth<=6 fan-out<=4, 22% reverted frames, 45% bridge calls, global indexes incl. values differing only above bit 63 and uint32-range values shared by both contract generations; "
-             "event index drawn mostly from indexes present in the tree; separate malformed stream (non-claim selectors / short input addressed to the bridge); distinct non-trivial = distinct trace lines",
+             "event index drawn mostly from indexes present in the tree; separate malformed stream (non-claim selectors / short input addressed to the bridge); distinct non-trivial = distinct trace lines; failed frames carry nine different tracer error strings; every recorded field is compared",
         assumptions=["every call addressed to the bridge is a claim call (the property's own restriction) for completeness; soundness needs nothing"],
         trusted_base=["hand model Model/ClaimTrace.lean"],
     ),
@@ -119,7 +119,7 @@ CHECKS = {
                    "The L1-info-tree and injected-GER stores are not yet covered by this check.",
         level_note="Trusted: Lean kernel; H.Inj; model/code correspondence (generator-bounded); SQLite cascade semantics exercised through the real schema, modelled as a filter. Covers the bridge store only in this round.",
         rule="seeded worlds of 14-25 steps: blocks with 0-5 events of all five kinds, faulted attempts + retries, reorg points uniform in [first-1, tip+2] (above tip, at first block, nested), restarts, deposit-count gaps; "
-             "distinct non-trivial = distinct twin comparisons and (root, position) proof checks",
+             "distinct non-trivial = distinct twin comparisons and (root, position) proof checks; 30% of the reorgs hit exactly the last stored block; 40% of the reorgs that drop deposits are followed by a refill of the new fork up to the old deposit count with an exit-root lookup before and after (persistent bridge data querier); tree and gersync as for C08 / C16",
         assumptions=["H.Inj", "WFhistory", "no RemoveLegacyToken events (partial; F3 recorded)"],
         trusted_base=["hand model Model/BridgeStore.lean", "model of package tree"],
     ),
@@ -136,7 +136,7 @@ CHECKS = {
                    "Genuine defects found by this check and fixed in /repo: F1 (rollback left the frontier polluted), F14 (initCache advanced lastIndex before the cache was rebuilt), F2 (transient AddLeaf error reported as inconsistency without halting).",
         level_note="Trusted: Lean kernel; H.Inj; model/code correspondence (generator-bounded). Process kill = rollback of the open transaction + restart (SQLite atomic commit trusted). The driver's retry loop is argued from the two theorems, not modelled as a goroutine. For the L1 info and injected-GER stores: C07_l1info_atomic / C07_ger_atomic prove all-or-nothing for every LOGICAL failure (halted, duplicate block, announced-root mismatch, recurring tree state); for a failing storage statement the faulted attempt is the model's definition (state unchanged), justified by C07_code_facts (every statement error is returned, rollback unless committed — regenerated from the source) and checked against the real stores by the correspondence run.",
         rule="bridgestore: 35% of blocks get 1-2 faulted attempts at a uniformly chosen write statement (block insert, root/rht inserts inside AddLeaf, row inserts, legacy deletes) before a clean retry, some with a restart in between; "
-             "tree: statement-level faults incl. SELECTs in initCache; distinct non-trivial = distinct twin comparisons",
+             "tree: statement-level faults incl. SELECTs in initCache; distinct non-trivial = distinct twin comparisons; l1infostore / gersync / reorgsync faults as described under C11 / C16 / C06 (`step!`: ProcessBlock fails once or twice before reaching the store)",
         assumptions=["H.Inj", "WFhistory"],
         trusted_base=["hand model Model/BridgeStore.lean", "model of package tree"],
     ),
@@ -167,7 +167,7 @@ CHECKS = {
         level_note="Trusted: Lean kernel; H.Inj; model/code correspondence (generator-bounded); the two L1 contracts are modelled by hand (deposit-tree algorithm; sparse tree of last exit roots) and cross-checked against independent Go ports, not against bytecode. "
                    "Hypotheses: distinct GERs (UNIQUE column); rollup id >= 1; no rollup goes from non-zero back to zero for manager-root equality; no recurrence of a previous rollup-exit-tree state (root is the table's primary key).",
         rule="seeded worlds of 14-25 steps: blocks with 0-5 events, 25% with 3-5 info updates, V2 announcements computed from the reference (35%) or deliberately wrong (12%), exit roots from a pool incl. zero and repeats; reorgs in [first-1, tip+2], restarts; "
-             "distinct non-trivial = distinct historical info roots checked + twin comparisons",
+             "distinct non-trivial = distinct historical info roots checked + twin comparisons; two thirds of the blocks are fed as ABI-encoded logs through the real log handlers; block timestamps 0 / small / around 2^32 / up to 2^62 in a quarter of the updates; 25% of the blocks get 1-2 faulted attempts (one-shot SQL-trigger fault at a write statement, half of them aimed at the events' own rows) before the retry; one directed rolled-back block of four updates at an odd leaf index per world; 30% of the reorgs hit exactly the last stored block; evmger: 2 / 6 worlds of 14 / 50 blocks mined by the real GER contract and verify-batches mock",
         assumptions=["H.Inj", "distinct GERs", "rollupID >= 1", "no zero-after-nonzero exit root for manager equality"],
         trusted_base=["hand model Model/L1InfoStore.lean", "model of package tree"],
     ),
@@ -186,7 +186,7 @@ CHECKS = {
                    "the real EVMDriver.Sync (scenario reorgsync): after every start, restart (incl. restarts at which the first reads of the last-processed marker fail) and rewind the driver must start its downloader right after the last stored block.",
         level_note="Trusted: Lean kernel; model/code correspondence (generator-bounded). Admissibility = what WaitForNewBlocks guarantees (a returned tip exceeds the last one) and start <= tip+1. The chain is fixed (reorgs: C06). The driver's retry loop and the hand-over through the Go channel are exercised by the store scenarios (C07), not modelled here; "
                    "the six-mismatch give-up path of getEventsByBlockRangeWithRetry is known finding F6 (modelled, witnessed, replayed).",
-        rule="seeded: chunk in {0,1,2,3,7,10,50}, event density 5-80%, 1-3 watched logs per event block plus logs of other topics and Removed logs, 4-17 iterations of strictly increasing tips (occasional jumps of 20+), finality lag in {0,1,3,8,100} or pointer at/above the tip or frozen, 8% failing finalized lookups, 40% of the runs with 1-4 faulty header answers (foreign hash / not found / error); distinct non-trivial = distinct run lines; reorgsync as for C06 (40% of its restarts with failing marker reads)",
+        rule="seeded: chunk in {0,1,2,3,7,10,50}, event density 5-80%, 1-3 watched logs per event block plus logs of other topics and Removed logs, 4-17 iterations of strictly increasing tips (occasional jumps of 20+), finality lag in {0,1,3,8,100} or pointer at/above the tip or frozen, 8% failing finalized lookups, 40% of the runs with 1-4 faulty header answers (foreign hash / not found / error); distinct non-trivial = distinct run lines; reorgsync as for C06 (40% of its restarts with failing marker reads); every fifth watched log makes the log appender fail once; removed logs carry the dropped block's hash and may come first in their block; one directed give-up run (F6); reorgsync as for C06",
         assumptions=["tips returned by WaitForNewBlocks exceed the last seen tip", "start <= first tip + 1", "fixed chain"],
         trusted_base=["hand model Model/Downloader.lean"],
     ),
@@ -217,7 +217,7 @@ CHECKS = {
                    "Tie: aggsender scenario (real PPFlow/baseFlow/query layer over the real bridge processor; what the fake Agglayer receives on the wire) with monitors comparing every wire exit field by field with the generated event, re-deriving the new exit root by appending the WIRE exits' hashes to an independent deposit-contract tree of the previous root, and decoding the metadata; "
                    "certcodec scenario (real getBridgeExits / ConvertClaimToImportedBridgeExit / Bridge.Hash / BridgeExit.Hash / gRPC conversion / metadata codec vs the model's own Keccak, byte for byte).",
         level_note="Trusted: Lean kernel; model/code correspondence (generator-bounded); exit roots are identified with leaf counts in the protocol model (justified by C01/C08 and checked per submission by the root-table monitor); Keccak is a parameter of the theorems (the driver runs a Lean Keccak-256 validated against go-ethereum's on every op).",
-        rule="aggsender: as C02. certcodec: 150 (quick) / 1200 (thorough) rounds, each: a random bridge (leaf type, networks 0 / max / random, zero / random addresses, amounts 0 / 2^256-1 / small / random width, metadata empty / 32 bytes / short / long), a certificate, a metadata word for ranges at 0, 2^32 boundaries and random, an arbitrary word to decode (versions 0-3); distinct non-trivial = distinct input shape classes",
+        rule="aggsender: as C02. certcodec: 150 (quick) / 1200 (thorough) rounds, each: a random bridge (leaf type, networks 0 / max / random, zero / random addresses, amounts 0 / 2^256-1 / small / random width, metadata empty / 32 bytes / short / long), a certificate, a metadata word for ranges at 0, 2^32 boundaries and random, an arbitrary word to decode (versions 0-3); distinct non-trivial = distinct input shape classes; bridgestore as for C04 (persistent bridge data querier compared with the syncer on every exit-root lookup)",
         assumptions=["as C02", "range width < 2^32 blocks (F8)"],
         trusted_base=["hand models Model/Aggsender.lean, Model/Certificate.lean", "Lean Keccak-256 (driver only)"],
     ),
@@ -274,7 +274,7 @@ CHECKS = {
                    "that index is a recorded leaf whose mainnet exit root (rollup exit root) commits to more than the asked deposit count; in every other case it returns an error. C12_claim_proof — after any history of an exit tree store the proof served for (deposit, exit root of any recorded version covering it) hashes the deposit's leaf to exactly that root (C08's store theorem; the rollup exit tree half is C08_updatable_step). "
                    "Tie: bridgeapi scenario — the service's own HTTP router and handlers (/l1-info-tree-index, /claim-proof) over the real L1 and L2 bridge processors and the real L1 info tree processor (incl. the rollup exit tree) in a joint L1/L2 world; every lookup answer is compared with the model and checked by a monitor against the generated world; every returned claim proof is verified (leaf -> local/mainnet exit root -> rollup exit root, returned L1 info leaf) with an independent verifier against independently computed trees.",
         level_note="Trusted: Lean kernel; model/code correspondence (generator-bounded); the lookup is safe, not live: it returns an error although a covering leaf exists when the search meets an info leaf whose mainnet exit root is the empty tree's (observed in worlds whose first info leaves predate any mainnet deposit; allowed by the property, noted in DESIGN); block numbers >= 1; /injected-l1-info-leaf is not exercised.",
-        rule="seeded worlds (12 quick / 80 thorough) of 16/30 steps: L1 blocks with 1-4 events in arbitrary order (mainnet deposits, info updates naming any not-yet-named prefix of the deposits — several per block —, verified batches of this network with any not-yet-verified prefix of the L2 deposits, verified batches of other rollups), L2 blocks with 1-3 deposits; 30% of the worlds start with info leaves before any deposit; after every third step: the lookup for every deposit and one beyond on both networks, and the claim proof for random covered (leaf, deposit) pairs; distinct non-trivial = distinct (network, answered index) and (network, deposit, leaf) classes",
+        rule="seeded worlds (12 quick / 80 thorough) of 16/30 steps: L1 blocks with 1-4 events in arbitrary order (mainnet deposits, info updates naming any not-yet-named prefix of the deposits — several per block —, verified batches of this network with any not-yet-verified prefix of the L2 deposits, verified batches of other rollups), L2 blocks with 1-3 deposits; 30% of the worlds start with info leaves before any deposit; after every third step: the lookup for every deposit and one beyond on both networks, and the claim proof for random covered (leaf, deposit) pairs; distinct non-trivial = distinct (network, answered index) and (network, deposit, leaf) classes; info leaves before the first mainnet deposit carry bytes32(0) as mainnet exit root in 60% of the worlds, a directed prelude puts such a leaf in front of deposit 0 in the first world; every returned proof is also put to the real bridge contract's verifyMerkleProof",
         assumptions=["the GER contract records an info leaf only when the global exit root changed", "both bridge syncers have processed the blocks the info leaves refer to"],
         trusted_base=["hand model Model/BridgeAPI.lean", "reference Merkle trees in the harness"],
     ),
@@ -289,7 +289,7 @@ CHECKS = {
                    "Genuine defects found and fixed in /repo: F10 (after a stop between submitting the replacement of an InError certificate and recording it, start-up refused forever; and its follow-up F10b), F15 (the aggchain-prover flow refused to start once its last certificate began after the start block). "
                    "Tie: same scenario as C02 (real status checker CheckInitialStatus through Start's own sequence, real storage with the database file deleted for `losedb`, process killed by a panic inside the storage wrapper for a crash between submit and store, SQL-trigger statement faults inside the real save transaction); monitors: first certificate after every restart is checked against the Agglayer's log; a refused start-up is checked against an independent notion of contradiction; a failed save must leave the rows unchanged.",
         level_note="Trusted: Lean kernel; model/code correspondence (generator-bounded); atomicity of the save transaction is SQLite's (observed by the savefault monitor, not proved); a crash is modelled at the two points where the outcome differs (between iterations; between submit and store).",
-        rule="as C02; crash ops 4%, crash-between-submit-and-store 3% (40% followed by an Agglayer move before the restart), database loss 2%, save faults 2% (statement 1-3 of the transaction), failing reconciliation call in 20% of the restarts; distinct non-trivial as C02",
+        rule="as C02; crash ops 4%, crash-between-submit-and-store 3% (40% followed by an Agglayer move before the restart), database loss 2%, save faults 2% (statement 1-3 of the transaction), failing reconciliation call in 20% of the restarts; distinct non-trivial as C02; optimistic-mode flag flips in half of the aggchain-prover worlds; directed epilogues: a forged record replacing a settled one (60%), a save fault on the replacement of an in-error certificate (40%)",
         assumptions=["as C02"],
         trusted_base=["hand model Model/Aggsender.lean", "fake Agglayer in the harness", "SQLite transaction atomicity"],
     ),
@@ -303,7 +303,7 @@ CHECKS = {
                    "Tie: the real PP downloader (real log parsing through the contract binding, L1 leaf lookups that lag) and the real FEP downloader (eth_call on the L2 GER map) feeding the real processor as the driver does, over a scripted L2 client whose tip jumps by 1-12 blocks between polls, with restarts and reorgs, vs the compiled model; "
                    "monitor = the property evaluated on the implementation's answers. Genuine defect found and fixed in /repo: F12 (the PP downloader queried only the new tip block).",
         level_note="Trusted: Lean kernel; model/code correspondence (generator-bounded); FEP completeness (a root injected and never seen at a poll tip is missed by design of that downloader) is not a theorem; FEP restarts/reorgs are covered by correspondence only.",
-        rule="seeded worlds: chain growing by 1-12 blocks between polls, 35% of blocks with a GER event (25% removals in two thirds of the worlds), 20% of insertions whose L1 leaf is indexed late, restarts 20%, reorgs 12%; every fourth world in FEP mode; queries for boundary and random indices after each poll; distinct non-trivial = distinct (world, poll) pairs",
+        rule="seeded worlds: chain growing by 1-12 blocks between polls, 35% of blocks with a GER event (25% removals in two thirds of the worlds), 20% of insertions whose L1 leaf is indexed late, restarts 20%, reorgs 12%; every fourth world in FEP mode; queries for boundary and random indices after each poll; distinct non-trivial = distinct (world, poll) pairs; 15% of the insertions re-inject an earlier GER; 6% of the polls follow a gap of 1000-2600 blocks; 15% of the polls with a one-shot storage fault (half aimed at the GER statements) and 15% with a header answer that disagrees with the logs once",
         assumptions=["at most one GER event per L2 block (the table's primary key)", "fixed chain between reorgs"],
         trusted_base=["hand model Model/LastGER.lean"],
     ),
